@@ -17,3 +17,11 @@ LEVEL_TEXT["C09"] = ("Exploration: rapid state machines drive ring.Buffer throug
                      "counters and flags with a byte-slice model after every step; failures shrink to a minimal operation sequence. "
                      "A data structure with unbounded histories: sampling against a model is the applicable level.")
 LEVEL_NOTE["C09"] = "Trusts the byte-slice model and the scripted reader/writer (both in the harness); sizes bounded by 9000 bytes per operation, sequences by rapid's step budget."
+
+LEVEL_TEXT["C10"] = ("Exploration: rapid state machines for the lazily allocated elastic.RingBuffer (C09 alphabet + Done) and for the mixed ring/list elastic.Buffer "
+                     "(Write, Writev with up to 3000 segments, ReadFrom, Read, Peek, Discard, WriteTo, Reset, Release; seven static-size limits) compared with a byte-slice model "
+                     "after every step via a non-consuming Peek of everything. Unbounded histories over a composite data structure: model-based sampling is the applicable level.")
+LEVEL_NOTE["C10"] = "Trusts the byte-slice model and scripted readers/writers; per-operation sizes up to 70 KB; the global ring-buffer and byte-slice pools are shared across cases (as in production)."
+LEVEL_TEXT["C11"] = ("Exploration: a rapid state machine drives linkedlist.Buffer through all 11 operations with segment-boundary-biased sizes and scripted readers/writers and compares "
+                     "content, Buffered, Len and IsEmpty with a list-of-segments model after every step; pushed slices are scribbled over after the call to check copy semantics.")
+LEVEL_NOTE["C11"] = "Trusts the segment-list model; PeekWithBytes is checked strictly for requests within the list's own content and leniently (error or correct bytes) for requests that need the extra slices."
